@@ -18,6 +18,12 @@ func main() {
 	switch os.Args[1] {
 	case "replay":
 		mc.Replay(os.Args[2])
+	case "race":
+		reps := 20
+		if len(os.Args) > 3 {
+			reps, _ = strconv.Atoi(os.Args[3])
+		}
+		mc.Race(os.Args[2], reps)
 	case "worker":
 		i, _ := strconv.Atoi(os.Args[4])
 		n, _ := strconv.Atoi(os.Args[5])
